@@ -1,4 +1,321 @@
-import Stbem.Model.Mesh
+import Stbem.Props.C02
+import Stbem.Lemmas.MeshGrading
+import Stbem.Lemmas.MeshGradingTerm
+import Stbem.Lemmas.WindowReal
+
+/-!
+# C19 — grading (`refine_grading`, `K = 4`, `σ = p/q ∈ {1, 3/2, 2}`)
+
+* **partial correctness** (`grading_window`, both variants of the space loop): whatever `grading`
+  returns satisfies `Inv`, refines the input and has every leaf in the window
+  `h_t/K < h_x^σ < K h_t` (`inWindow_iff`: decided without roots; `inWindow_iff_real`: the same
+  statement with the real power `h_x^(p/q)`);
+* **no assertion after the repair** (`gradeSweep_ok`, `grading_fixed_error`): with the space loop
+  that skips elements which are no longer leaves, a sweep never fails on a mesh satisfying `Inv`;
+  the only possible error of `grading true` is the exhausted sweep budget;
+* **the unrepaired loop aborts** (`grading_unfixed_can_fail`, `grading_unfixed_can_fail_uniform`):
+  kernel-evaluated witnesses on reachable meshes (`assert not elem.children`, `mesh.py:440`);
+* **termination** (`grading_terminates`, `grading_total`, `grading_total_reach`): on meshes all of
+  whose root cells have the same size in time and the same size in space (equidistant initial
+  grids, any refinement history), for `p, q ≥ 1` and `K = 4` there is a sweep budget for which the
+  repaired loop returns, with all of the above.
+
+Helper lemmas: `Stbem.Lemmas.MeshGrading` (sweeps), `MeshTrace` (`refineAxis` as a sequence of
+level-bounded bisections), `MeshGradingTerm` (potential argument), `WindowReal`.
+-/
 namespace Stbem.Mesh
-theorem placeholder_C19 : True := trivial
+
+/-! ## 1. partial correctness -/
+
+/-- `InWindow c p q K` (defined in `Lemmas/MeshGrading`): neither mark applies to the leaf -/
+theorem inWindow_def (c : Cell) (p q : Nat) (K : Rat) :
+    InWindow c p q K ↔ (markTime c p q K = false ∧ markSpace c p q K = false) := Iff.rfl
+
+theorem grading_window (fixed : Bool) (fuel : Nat) (m : Mesh) (h : Inv m) (p q : Nat) (K : Rat)
+    (m' : Mesh) (hr : grading fixed fuel m p q K = .ok m') :
+    Inv m' ∧ Refines m m' ∧ ∀ c ∈ m'.leaves, InWindow c p q K :=
+  grading_window' fixed fuel h hr
+
+/-- meaning of the window without roots -/
+theorem inWindow_iff (c : Cell) (p q : Nat) (K : Rat) :
+    InWindow c p q K ↔ ((c.t1 - c.t0) / K) ^ q < (c.x1 - c.x0) ^ p ∧
+      (c.x1 - c.x0) ^ p < (K * (c.t1 - c.t0)) ^ q :=
+  inWindow_iff' c p q K
+
+/-- meaning of the window with the real exponent `σ = p/q`: `h_t/K < h_x^σ < K h_t` -/
+theorem inWindow_iff_real (c : Cell) (hc : c.t0 < c.t1 ∧ c.x0 < c.x1) (p : ℕ) {q : ℕ} (hq : 0 < q)
+    {K : ℚ} (hK : 0 < K) :
+    InWindow c p q K ↔
+      (((c.t1 - c.t0 : ℚ) : ℝ) / (K : ℝ) < ((c.x1 - c.x0 : ℚ) : ℝ) ^ ((p : ℝ) / (q : ℝ)) ∧
+       ((c.x1 - c.x0 : ℚ) : ℝ) ^ ((p : ℝ) / (q : ℝ)) < (K : ℝ) * ((c.t1 - c.t0 : ℚ) : ℝ)) :=
+  inWindow_iff_rpow c hc p hq hK
+
+/-- the leaves of a mesh satisfying `Inv` are proper, so `inWindow_iff_real` applies to them -/
+theorem grading_window_real (fixed : Bool) (fuel : Nat) (m : Mesh) (h : Inv m) (p : ℕ) {q : ℕ}
+    (hq : 0 < q) {K : ℚ} (hK : 0 < K) (m' : Mesh) (hr : grading fixed fuel m p q K = .ok m') :
+    ∀ c ∈ m'.leaves,
+      ((c.t1 - c.t0 : ℚ) : ℝ) / (K : ℝ) < ((c.x1 - c.x0 : ℚ) : ℝ) ^ ((p : ℝ) / (q : ℝ)) ∧
+      ((c.x1 - c.x0 : ℚ) : ℝ) ^ ((p : ℝ) / (q : ℝ)) < (K : ℝ) * ((c.t1 - c.t0 : ℚ) : ℝ) := by
+  obtain ⟨i, _, w⟩ := grading_window fixed fuel m h p q K m' hr
+  intro c hc
+  exact (inWindow_iff_real c (i.tiles.proper c hc) p hq hK).mp (w c hc)
+
+/-! ## 2. the repaired loop raises no assertion -/
+
+theorem gradeSweep_ok (m : Mesh) (h : Inv m) (p q : Nat) (K : Rat) :
+    ∃ r, gradeSweep true m p q K = .ok r ∧ Inv r.1 ∧ Refines m r.1 :=
+  gradeSweep_ok' h p q K
+
+theorem grading_fixed_error (fuel : Nat) (m : Mesh) (h : Inv m) (p q : Nat) (K : Rat) (e : String)
+    (hr : grading true fuel m p q K = .error e) : e = "fuel" :=
+  grading_fixed_error' fuel h hr
+
+/-! ## 3. the unrepaired loop can abort -/
+
+/-- a refinement history: `(element index, axis)` steps of `refineId` -/
+def hist (m : Mesh) (l : List (Nat × Ax)) : Except String Mesh :=
+  l.foldlM (fun m s => refineId m s.1 s.2) m
+
+theorem hist_inv {m : Mesh} (h : Inv m) {l : List (Nat × Ax)} {m' : Mesh}
+    (hr : hist m l = .ok m') : Inv m' ∧ Refines m m' :=
+  foldlM_except_inv (fun m (s : Nat × Ax) => refineId m s.1 s.2) Inv Refines Refines.refl
+    (fun _ _ _ => Refines.trans) (fun _ _ _ hI hf => refineId_inv' hI hf) l m m' h hr
+
+def isErr (r : Except String Mesh) (e : String) : Bool :=
+  match r with
+  | .error e' => e' == e
+  | .ok _ => false
+
+def isOk (r : Except String Mesh) : Bool :=
+  match r with
+  | .error _ => false
+  | .ok _ => true
+
+theorem isErr_iff {r : Except String Mesh} {e : String} : isErr r e = true ↔ r = .error e := by
+  cases r <;> simp [isErr]
+
+theorem isOk_iff {r : Except String Mesh} : isOk r = true ↔ ∃ m, r = .ok m := by
+  cases r <;> simp [isOk]
+
+/-- Witness 1 (two roots of widths 1 and 2 as on the L-shape, one time slab): root `0 = [0,1]` is
+refined twice in space towards `x = 0`, then element `5 = [1/4,1/2]` and its lower child `6` in time.
+Root `1 = [1,3]×[0,1]` (`h_x² = 4 = K h_t`) is marked for space refinement; `12`, `13`
+(`h_t = h_x = 1/4`) are marked for time refinement; the closure of the time refinement of `12`
+bisects `10 = [1/2,1]×[0,1/2]` and then root `1` in time — root `1` is no longer a leaf when the
+space loop reaches it. -/
+def witness1 : Except String Mesh :=
+  hist (init false [0, 1, 3] [0, 1]) [(0, .space), (2, .space), (5, .time), (6, .time)]
+
+theorem witness1_fails :
+    isErr (witness1 >>= fun m => grading false 50 m 2 1 4) "assert:grading-not-leaf" = true := by
+  decide +kernel
+
+theorem witness1_fixed_ok : isOk (witness1 >>= fun m => grading true 50 m 2 1 4) = true := by
+  decide +kernel
+
+theorem strictInc_013 : StrictInc [0, 1, 3] := by
+  simp [StrictInc]
+
+theorem grading_unfixed_witness :
+    ∃ m, Inv m ∧ grading false 50 m 2 1 4 = .error "assert:grading-not-leaf" ∧
+      ∃ m', grading true 50 m 2 1 4 = .ok m' := by
+  have h1 := witness1_fails
+  have h2 := witness1_fixed_ok
+  cases hw : witness1 with
+  | error e => rw [hw] at h2; simp [bind, Except.bind, isOk] at h2
+  | ok m =>
+    rw [hw] at h1 h2
+    simp only [bind, Except.bind] at h1 h2
+    have hinv : Inv m := (hist_inv (init_inv false [0, 1, 3] [0, 1] strictInc_013 strictInc_01
+      (by simp) (by simp)) hw).1
+    exact ⟨m, hinv, isErr_iff.mp h1, isOk_iff.mp h2⟩
+
+/-- the unrepaired grading loop aborts on a reachable mesh on which the repaired loop succeeds -/
+theorem grading_unfixed_can_fail :
+    ∃ m, Inv m ∧ (∃ e, grading false 50 m 2 1 4 = .error e) ∧
+      (∃ m', grading true 50 m 2 1 4 = .ok m') := by
+  obtain ⟨m, h1, h2, h3⟩ := grading_unfixed_witness
+  exact ⟨m, h1, ⟨_, h2⟩, h3⟩
+
+/-- Witness 2 (two unit roots, as on the unit square): root `0` is refined four times in space
+towards `x = 0`, then the cell `[1/16,1/8]` six times in time towards `t = 0`.  The closure builds
+the staircase of levels `(lt,lx) = (6,4),(5,3),(4,2),(3,1),(2,0)`; the leaf `(2,0)` in root `1` is
+marked for space refinement, the leaf `(6,4)` for time refinement, and the closure of the latter
+runs down the staircase.  (On unit roots a chain of length ≥ 4 is necessary for `σ = 2`.) -/
+def witness2 : Except String Mesh :=
+  hist (init false [0, 1, 2] [0, 1])
+    [(0, .space), (2, .space), (4, .space), (6, .space),
+     (9, .time), (10, .time), (16, .time), (24, .time), (34, .time), (46, .time)]
+
+theorem witness2_fails :
+    isErr (witness2 >>= fun m => grading false 50 m 2 1 4) "assert:grading-not-leaf" = true := by
+  decide +kernel
+
+theorem witness2_ok : isOk witness2 = true := by
+  decide +kernel
+
+/-! ## 4. termination on size-uniform meshes -/
+
+/-- `Uniform Ht Hx m`: a leaf of levels `(lt, lx)` has the size `Ht/2^lt × Hx/2^lx` -/
+theorem uniform_def (Ht Hx : Rat) (m : Mesh) :
+    Uniform Ht Hx m ↔ ∀ c ∈ m.leaves, c.t1 - c.t0 = Ht / 2 ^ c.lt ∧ c.x1 - c.x0 = Hx / 2 ^ c.lx :=
+  Iff.rfl
+
+/-- the initial mesh over equidistant grids is uniform -/
+theorem uniform_init (glue : Bool) (X T : List Rat) (Ht Hx : Rat)
+    (hX : ∀ p ∈ pairs X, p.2 - p.1 = Hx) (hT : ∀ p ∈ pairs T, p.2 - p.1 = Ht) :
+    Uniform Ht Hx (init glue X T) :=
+  init_uniform glue hX hT
+
+/-- uniformity is preserved by every `refineId` (hence by every operation of the model) -/
+theorem uniform_refineId (m : Mesh) (h : Inv m) (Ht Hx : Rat) (hu : Uniform Ht Hx m) (id : Nat)
+    (ax : Ax) (m' : Mesh) (hr : refineId m id ax = .ok m') : Uniform Ht Hx m' :=
+  refineId_uniform h hu hr
+
+/-- a sweep of the repaired loop that marks something strictly decreases the potential
+`Σ_leaves (2^(Lt-lt+Lx-lx+1) - 1)` of a target `(Lt, Lx)` whose cell is in the window, and keeps
+all leaves below the target -/
+theorem gradeSweep_progress (Ht Hx : Rat) (p q : Nat) (K : Rat) (Lt Lx : Nat)
+    (T : Target Ht Hx p q K Lt Lx) (m : Mesh) (h : Inv m) (hu : Uniform Ht Hx m)
+    (hund : Under Lt Lx m) :
+    ∃ r, gradeSweep true m p q K = .ok r ∧ Inv r.1 ∧
+      ((r.2 = false) ∨ (r.2 = true ∧ Uniform Ht Hx r.1 ∧ Under Lt Lx r.1 ∧
+        pot Lt Lx r.1 < pot Lt Lx m)) :=
+  gradeSweep_St T h hu hund
+
+/-- **termination** (`K = 4`, `σ = p/q` with `p, q ≥ 1`) -/
+theorem grading_terminates (m : Mesh) (h : Inv m) (Ht Hx : Rat) (hHt : 0 < Ht) (hHx : 0 < Hx)
+    (hu : Uniform Ht Hx m) (p q : Nat) (hp : 1 ≤ p) (hq : 1 ≤ q) :
+    ∃ fuel m', grading true fuel m p q 4 = .ok m' :=
+  grading_terminates' h hHt hHx hu hp hq (by norm_num) (by norm_num)
+
+/-- **C19 on size-uniform meshes**: the repaired grading terminates without error, only refines,
+keeps the invariant, and every leaf ends in the window -/
+theorem grading_total (m : Mesh) (h : Inv m) (Ht Hx : Rat) (hHt : 0 < Ht) (hHx : 0 < Hx)
+    (hu : Uniform Ht Hx m) (p q : Nat) (hp : 1 ≤ p) (hq : 1 ≤ q) :
+    ∃ fuel m', grading true fuel m p q 4 = .ok m' ∧ Inv m' ∧ Refines m m' ∧
+      ∀ c ∈ m'.leaves, InWindow c p q 4 := by
+  obtain ⟨fuel, m', hr⟩ := grading_terminates m h Ht Hx hHt hHx hu p q hp hq
+  exact ⟨fuel, m', hr, grading_window true fuel m h p q 4 m' hr⟩
+
+/-- meshes reachable from `m0` by `refineId` steps (every refinement operation of the model acts
+through `refineId` only) -/
+inductive Reach (m0 : Mesh) : Mesh → Prop
+  | base : Reach m0 m0
+  | step {m m' : Mesh} {id : Nat} {ax : Ax} : Reach m0 m → refineId m id ax = .ok m' → Reach m0 m'
+
+theorem reach_inv {m0 m : Mesh} (h0 : Inv m0) (hr : Reach m0 m) : Inv m := by
+  induction hr with
+  | base => exact h0
+  | step _ hs ih => exact (refineId_inv' ih hs).1
+
+theorem reach_uniform {m0 m : Mesh} (h0 : Inv m0) {Ht Hx : Rat} (hu : Uniform Ht Hx m0)
+    (hr : Reach m0 m) : Uniform Ht Hx m := by
+  induction hr with
+  | base => exact hu
+  | step hprev hs ih => exact refineId_uniform (reach_inv h0 hprev) ih hs
+
+/-- **C19 from any mesh reachable from an equidistant initial mesh**, `σ ∈ {1, 3/2, 2}`, `K = 4` -/
+theorem grading_total_reach (glue : Bool) (X T : List Rat) (hX : StrictInc X) (hT : StrictInc T)
+    (hX2 : 2 ≤ X.length) (hT2 : 2 ≤ T.length) (Ht Hx : Rat)
+    (hXe : ∀ p ∈ pairs X, p.2 - p.1 = Hx) (hTe : ∀ p ∈ pairs T, p.2 - p.1 = Ht)
+    (m : Mesh) (hm : Reach (init glue X T) m) (p q : Nat)
+    (hσ : (p, q) = (1, 1) ∨ (p, q) = (3, 2) ∨ (p, q) = (2, 1)) :
+    ∃ fuel m', grading true fuel m p q 4 = .ok m' ∧ Inv m' ∧ Refines m m' ∧
+      ∀ c ∈ m'.leaves, InWindow c p q 4 := by
+  have h0 := init_inv glue X T hX hT hX2 hT2
+  have hu0 := uniform_init glue X T Ht Hx hXe hTe
+  obtain ⟨xp, hxp⟩ := pairs_ne_nil hX2
+  obtain ⟨tp, htp⟩ := pairs_ne_nil hT2
+  have hHx : 0 < Hx := by
+    have := (pairs_mem hX xp hxp).1
+    have := hXe xp hxp
+    linarith
+  have hHt : 0 < Ht := by
+    have := (pairs_mem hT tp htp).1
+    have := hTe tp htp
+    linarith
+  have hpq : 1 ≤ p ∧ 1 ≤ q := by
+    rcases hσ with e | e | e <;> (injection e with e1 e2; subst e1; subst e2; simp)
+  exact grading_total m (reach_inv h0 hm) Ht Hx hHt hHx (reach_uniform h0 hu0 hm) p q hpq.1 hpq.2
+
+/-- on witness 2 (unit roots) the unrepaired loop aborts, the repaired one terminates correctly -/
+theorem grading_unfixed_can_fail_uniform :
+    ∃ m, Inv m ∧ Uniform 1 1 m ∧ grading false 50 m 2 1 4 = .error "assert:grading-not-leaf" ∧
+      ∃ fuel m', grading true fuel m 2 1 4 = .ok m' ∧ Inv m' ∧ Refines m m' ∧
+        ∀ c ∈ m'.leaves, InWindow c 2 1 4 := by
+  have h1 := witness2_fails
+  cases hw : witness2 with
+  | error e => have h2 := witness2_ok; rw [hw] at h2; simp [isOk] at h2
+  | ok m =>
+    rw [hw] at h1
+    simp only [bind, Except.bind] at h1
+    have h0 : Inv (init false [0, 1, 2] [0, 1]) :=
+      init_inv false [0, 1, 2] [0, 1] strictInc_012 strictInc_01 (by simp) (by simp)
+    have hu0 : Uniform 1 1 (init false [0, 1, 2] [0, 1]) :=
+      uniform_init false _ _ 1 1 (by simp [pairs]; norm_num) (by simp [pairs])
+    have hreach : ∀ (l : List (Nat × Ax)) (a b : Mesh), Reach (init false [0, 1, 2] [0, 1]) a →
+        hist a l = .ok b → Reach (init false [0, 1, 2] [0, 1]) b := by
+      intro l
+      induction l with
+      | nil => intro a b ha hb; cases hb; exact ha
+      | cons s l ih =>
+        intro a b ha hb
+        simp only [hist, List.foldlM_cons, bind, Except.bind] at hb
+        split at hb
+        · cases hb
+        · rename_i a1 hs
+          exact ih a1 b (Reach.step ha hs) hb
+    have hr := hreach _ _ _ Reach.base hw
+    have hinv := reach_inv h0 hr
+    have hu := reach_uniform h0 hu0 hr
+    exact ⟨m, hinv, hu, isErr_iff.mp h1,
+      grading_total m hinv 1 1 (by norm_num) (by norm_num) hu 2 1 (by norm_num) (by norm_num)⟩
+
+/-! ## non-vacuity -/
+
+/-- equidistant grids exist: the unit-square boundary `[0,1,2,3,4]`, one time slab -/
+example : ∀ p ∈ pairs ([0, 1, 2, 3, 4] : List Rat), p.2 - p.1 = 1 := by
+  simp [pairs]; norm_num
+
+/-- all leaves in the window, decided -/
+def allInWindow (r : Except String Mesh) (p q : Nat) (K : Rat) (minLeaves : Nat) : Bool :=
+  match r with
+  | .ok m => m.leaves.all (fun c => !markTime c p q K && !markSpace c p q K) &&
+      decide (minLeaves ≤ m.leaves.length)
+  | .error _ => false
+
+/-- the repaired loop really runs: glued unit square, root `0` refined twice in space (closure
+refines the neighbours), then grading with `σ = 2`: result has ≥ 10 leaves, all in the window -/
+example : allInWindow
+    (hist (init true [0, 1, 2, 3, 4] [0, 1]) [(0, .space), (4, .space)] >>= fun m =>
+      grading true 50 m 2 1 4) 2 1 4 10 = true := by
+  decide +kernel
+
+/-- `σ = 3/2` and `σ = 1` on the same mesh -/
+example : allInWindow
+    (hist (init true [0, 1, 2, 3, 4] [0, 1]) [(0, .space), (4, .space)] >>= fun m =>
+      grading true 50 m 3 2 4) 3 2 4 8 = true := by
+  decide +kernel
+
+example : allInWindow
+    (hist (init true [0, 1, 2, 3, 4] [0, 1]) [(0, .space), (4, .space)] >>= fun m =>
+      grading true 50 m 1 1 4) 1 1 4 4 = true := by
+  decide +kernel
+
+/-- on witness 1 the repaired loop ends with all leaves in the window -/
+example : allInWindow (witness1 >>= fun m => grading true 50 m 2 1 4) 2 1 4 20 = true := by
+  decide +kernel
+
+/-- the window is a non-trivial condition: the root cell `[0,1]×[1,3]` of witness 1 is outside -/
+example : ¬ InWindow ⟨0, 1, 1, 3, 0, 0, 1, none, 0⟩ 2 1 4 := by
+  simp [InWindow, markTime, markSpace]; norm_num
+
+/-- a target exists for the unit cell and `σ = 2`: `(Lt, Lx) = (0, 0)` -/
+example : Target 1 1 2 1 4 0 0 := ⟨by norm_num, by norm_num, by norm_num, by norm_num, by norm_num⟩
+
 end Stbem.Mesh
+
+section axioms
+open Stbem.Mesh
+end axioms
